@@ -73,6 +73,9 @@ class World:
         self.quiet = False       # shadow / schedule-B executions: no oracle, no stats
         self.accepted_ops = []   # for shadow replay
         self.guard_hits = Counter()
+        self.history = []        # every executed op (roots included), for second-schedule runs
+        self.armed = set()
+        self.evals = 0
 
     def count(self, name, n=1):
         if not self.quiet:
